@@ -234,7 +234,7 @@ impl SubCheckT for Smooth {
     const NAME: &'static str = "smooth";
     const RULE: &'static str = "BDD picked from a random <=25-op history under a random order (complemented roots and constants included), n_s between (deepest tested level + 1) and num_vars, arbitrary integer weights 0..6 and boundary finite-field residues: smooth(f,n_s) has f's truth table, every path tests exactly the order prefix var_at_level(0..n_s), weighted counts (real, GF(2^64-25)) equal the brute-force sum over models on those n_s variables and the unit-weight count equals the number of models. Up to 3 further smoothings (other pool entries, other n_s) are issued on the same builder and checked the same way, so a result may not depend on earlier calls. Non-trivial: some input path is shorter than n_s and the weights are not all (1,1)";
     fn cases(tier: Tier) -> u32 {
-        tier.pick(6000, 200_000)
+        tier.pick(40_000, 400_000)
     }
     fn strategy(_tier: Tier) -> BoxedStrategy<Case> {
         (
